@@ -59,8 +59,11 @@ class Concurrency:
 
     def __init__(self, target):
         self._target = int(target)
-        self._semaphore = asyncio.Semaphore(self._target)
-        self._sem_value = self._target
+        if self._target < 0:
+            raise ValueError('target must not be negative')
+        # At least one permit is always in circulation, see __aexit__
+        self._sem_value = max(self._target, 1)
+        self._semaphore = asyncio.Semaphore(self._sem_value)
 
     async def _retarget_semaphore(self):
         if self._target <= 0:
@@ -78,10 +81,17 @@ class Concurrency:
 
     async def __aenter__(self):
         await self._semaphore.acquire()
-        await self._retarget_semaphore()
+        try:
+            await self._retarget_semaphore()
+        except ExcessiveSessionCostError:
+            # Pass the permit on so that those waiting behind are refused too
+            self._semaphore.release()
+            raise
 
     async def __aexit__(self, exc_type, exc_value, traceback):
-        if self._sem_value > self._target:
+        # The last permit is never retired: with a target of zero it is what lets waiters
+        # in to be refused, and what lets a later, higher, target take effect
+        if self._sem_value > max(self._target, 1):
             self._sem_value -= 1
         else:
             self._semaphore.release()
